@@ -567,8 +567,10 @@ def case_term(cfg, tok, rootobs, tries):
     return f"({tables}, {FMT_TAG[cfg.fmt]}, {js}, {oobs_term(rootobs)}, {emit.lst(tries)})"
 
 
-def task_tree(args):
-    """one subtree: config + first operation.  Returns (case term, meta list [(path, other, changed)])."""
+def task_tree(args, want_paths=False):
+    """one subtree: config + first operation.  Returns (case term, depths of the nodes in preorder (bytes),
+    {preorder index: (outside-model text, changed names)} for the nodes where these are not empty).
+    With want_paths: the list of paths in preorder instead (the enumeration is deterministic)."""
     n, fmt, first, depth, rich_levels = args
     cfg = Cfg(n, fmt)
     tok = Tok()
@@ -576,7 +578,10 @@ def task_tree(args):
     h = History(cfg, tok)
     rootobs = h.rootobs
     t = node_term(cfg, tok, [first], depth, rich_levels, meta)
-    return case_term(cfg, tok, rootobs, [t]), meta
+    if want_paths:
+        return [m[0] for m in meta]
+    exc = {i: (o, c) for i, (p, o, c) in enumerate(meta) if o is not None or c}
+    return case_term(cfg, tok, rootobs, [t]), bytes(len(p) for p, _, _ in meta), exc
 
 
 def task_random(args):
@@ -636,6 +641,18 @@ def eqhash_cases(ctx, rng):
                 continue
             pool.append(r)
             srcs.append(op_src(op, len(pool) - 1, cfg).split(" = ", 1)[1].replace("o0", "root()"))
+        # same jd1, other jd2 (same scale): an array a quarter of an hour later
+        try:
+            from midgard.data.time import Time
+            r0 = cfg.root()
+            if cfg.fmt == "gps_ws":
+                sh = Time(np.asarray(r0)[:, 0], val2=np.asarray(r0)[:, 1] + 900.0, scale="gps", fmt="gps_ws")
+            else:
+                sh = Time(np.asarray(r0) + 1.0 / 64, scale="utc", fmt=cfg.fmt)
+            pool.append(sh)
+            srcs.append("<root shifted by 1/64 day (gps_ws: 900 s)>")
+        except Exception:
+            pass
         obs = []
         for o in pool:
             try:
@@ -778,7 +795,7 @@ def replay_of(cfg_key, path, verdict, other, changed):
 
 
 def run(ctx):
-    ok = ctx.prove(THEOREMS)
+    ok = ctx.prove(THEOREMS) if not os.environ.get("VERIF_C04_NOPROOF") else True     # development aid only
     rng = ctx.rng
     trees, rnd = plan(ctx)
     ctx.log(f"plan: {len(trees)} subtrees, {len(rnd)} random histories")
@@ -788,15 +805,37 @@ def run(ctx):
         rnd_res = pool.map(task_random, rnd, chunksize=8)
     ctx.log("midgard runs done")
 
-    cases, metas = [], []          # metas[i] = list of (cfg_key, path|None, other, changed) in verdict order
-    for (n, fmt, first, depth, _), (term, meta) in zip(trees, tree_res):
+    cases, metas = [], []          # metas[i] = ("tree", task, depths, exceptions) | ("rnd", cfg_key, [(path, other, changed)])
+    for task, (term, depths, exc) in zip(trees, tree_res):
         cases.append(term)
-        metas.append([((n, fmt), None, None, ())] + [((n, fmt), p, o, c) for p, o, c in meta])
-        ctx.count(f"tree:{fmt}:n={n}:depth={depth}", len(meta))
+        metas.append(("tree", task, depths, exc))
+        ctx.count(f"tree:{task[1]}:n={task[0]}:depth={task[3]}", len(depths))
     for (n, fmt, seed, ln), (term, meta) in zip(rnd, rnd_res):
         cases.append(term)
-        metas.append([((n, fmt), None, None, ())] + [((n, fmt), p, o, c) for p, o, c in meta])
+        metas.append(("rnd", (n, fmt), meta))
         ctx.count(f"random:{fmt}:n={n}", len(meta))
+    del tree_res, rnd_res
+    path_cache = {}
+
+    def node_info(i, idx):
+        """(cfg_key, depth, path-thunk, other, changed) of node idx (0-based, without the root) of case i"""
+        m = metas[i]
+        if m[0] == "tree":
+            task = m[1]
+            o, c = m[3].get(idx, (None, ()))
+
+            def path():
+                if i not in path_cache:
+                    path_cache.clear()
+                    path_cache[i] = task_tree(task, want_paths=True)
+                return path_cache[i][idx]
+            return (task[0], task[1]), m[2][idx], path, o, c
+        p, o, c = m[2][idx]
+        return m[1], len(p), (lambda: p), o, c
+
+    def n_nodes_of(i):
+        m = metas[i]
+        return len(m[2])
     # shards balanced by text size
     order = sorted(range(len(cases)), key=lambda i: -len(cases[i]))
     nshard = max(1, min(4 * nproc, len(cases)))
@@ -813,9 +852,10 @@ def run(ctx):
     ctx.log("model evaluated")
 
     n_nodes = 0
-    reported = set()
+    unknown = {}
+    bad = []
     for b, v in zip(bins, vs):
-        expect = sum(len(metas[i]) for i in b)
+        expect = sum(1 + n_nodes_of(i) for i in b)
         if v is None or len(v) != expect:
             ctx.violation({"broken": "correspondence shard did not evaluate in Coq (or verdict count mismatch)",
                            "errors": [e[1][-1500:] for e in ctx.last_coq_errors[:2]], "expected": expect,
@@ -824,45 +864,53 @@ def run(ctx):
             continue
         pos = 0
         for i in b:
-            for (cfg_key, path, other, changed) in metas[i]:
+            cfg_key = metas[i][1][:2] if metas[i][0] == "tree" else metas[i][1]
+            if v[pos] != 0:
+                ctx.violation(dict(kind="root", config=cfg_key, how=Cfg(*cfg_key).how()),
+                              what="fresh root array is not aligned with its own jd's / format table")
+            pos += 1
+            for idx in range(n_nodes_of(i)):
                 verdict = v[pos]
                 pos += 1
                 n_nodes += 1
-                if path is None:
-                    if verdict != 0:
-                        ctx.violation(dict(kind="root", config=cfg_key, how=Cfg(*cfg_key).how()),
-                                      what="fresh root array is not aligned with its own jd's / format table")
-                    continue
-                nontriv = len(path) >= 2
-                ctx.case((cfg_key, path), nontrivial=nontriv,
-                         sample=None if len(ctx.samples) >= 3 or len(path) < 3 else
-                         dict(config=cfg_key, history=[op_src(op, j + 1, Cfg(*cfg_key)) for j, op in enumerate(path)]))
+                cfg_key, depth, path, other, changed = node_info(i, idx)
+                ctx.case((i, idx), nontrivial=depth >= 2)
                 ctx.count(f"verdict:{verdict}")
                 if verdict == 0:
                     continue
                 if verdict >= 2 and verdict - 1 < len(VARIANTS):
                     qs = VARIANTS[verdict - 1]
-                    allknown = True
                     for qn in qs:
                         fid = QUIRK_IDS[qn]
                         ctx.count(f"quirk:{fid}")
                         known = any(k.get("id") == fid and k.get("status", "open") == "open" for k in ctx.known)
-                        if known or (fid, "rep") not in reported:
-                            reported.add((fid, "rep"))
-                            ctx.finding(fid, WHAT[fid], replay_of(cfg_key, path, verdict, other, changed)
-                                        if not known else {})
+                        if known:
+                            ctx.finding(fid, WHAT[fid], {})
+                        elif fid not in unknown or (depth, cfg_key[0]) < unknown[fid][:2]:
+                            unknown[fid] = (depth, cfg_key[0], cfg_key, path(), verdict, other, changed)
                     continue
-                if len(ctx.violations) < 5:
-                    rep = replay_of(cfg_key, path, verdict, other, changed)
-                    try:
-                        rep["model_says"] = model_prediction(ctx, cfg_key, path)
-                    except Exception as e:
-                        rep["model_says"] = f"(not evaluated: {e})"
+                if len(bad) < 2000:
+                    bad.append((depth, cfg_key[0], cfg_key, path(), verdict, other, changed))
                 else:
-                    rep = dict(kind="history", config=cfg_key, ops=[list(op) for op in path], verdict=verdict)
-                ctx.violation(rep, what="midgard's result differs from the specification model and from every quirk variant "
-                                        "(or an earlier object changed): " + "; ".join(
-                                            op_src(op, j + 1, Cfg(*cfg_key)) for j, op in enumerate(path))[:200])
+                    bad.append((99, 0, cfg_key, None, verdict, other, changed))
+    for fid, (_, _, cfg_key, path, verdict, other, changed) in sorted(unknown.items()):
+        ctx.finding(fid, WHAT[fid], replay_of(cfg_key, path, verdict, other, changed))
+    bad.sort(key=lambda x: (x[0], x[1], repr(x[3])))
+    bad = [x for x in bad if x[3] is not None] or bad[:0]
+    for i, (_, _, cfg_key, path, verdict, other, changed) in enumerate(bad[:25]):
+        rep = replay_of(cfg_key, path, verdict, other, changed)
+        rep["unexplained_nodes_in_this_run"] = len(bad)
+        if i < 5:
+            try:
+                rep["model_says"] = [model_prediction(ctx, cfg_key, path, v) for v in ("quirks_off", "quirks_on")]
+            except Exception as e:
+                rep["model_says"] = f"(not evaluated: {e})"
+        ctx.violation(rep, what="midgard's result differs from the specification model and from every quirk variant "
+                                "(or an earlier object changed): " + "; ".join(rep["history"][1:])[:220])
+    for m in metas:
+        if m[0] == "rnd" and len(m[2]) >= 4 and len(ctx.samples) < 3:
+            cfg = Cfg(*m[1])
+            ctx.samples.append(dict(config=m[1], history=replay_of(m[1], m[2][3][0], 0, None, ())["history"]))
     ctx.log(f"{n_nodes} history nodes compared")
 
     # ---- eq/hash and write attempts
